@@ -315,6 +315,14 @@ pub fn gen_free_text(rng: &mut Rng, max: usize, ascii_only: bool) -> String {
                 continue;
             }
         }
+        if rng.chance(1, 24) {
+            // words of the grammar itself inside the ignored text
+            let w: &str = *rng.pick(&["PROXY", "TCP4", "TCP6", "UNKNOWN", "PRO", " PROXY", "HAPROXY"]);
+            if s.len() + w.len() <= len {
+                s.push_str(w);
+                continue;
+            }
+        }
         if rng.chance(1, 10) {
             s.push(*rng.pick(NEAR_DELIMITERS) as char);
         } else {
